@@ -184,8 +184,9 @@ def cells_of_row(row, enc="utf-8"):
 
 class C02(core.Check):
     pid = "C02"
-    gen_modules = []
-    model_targets = ["theories/Model/Canvas.vo", "theories/Model/CanvasHeap.vo"]
+    # str_util / util integer code translated by py2v for C11 (Model/Width.v); imported read-only by Model/CanvasBytes.v
+    gen_modules = ["str_util", "str_loops", "wcwidth_table"]
+    model_targets = ["theories/Model/Canvas.vo", "theories/Model/CanvasHeap.vo", "theories/Model/CanvasBytes.vo"]
     prop_file = "theories/Properties/C02.v"
     extract_v = "Extract/C02X.v"
     allowed_axioms = set()
@@ -233,12 +234,11 @@ class C02(core.Check):
     ]
 
     # ================================================================= implementation
-    def build_leaf(self, spec):
-        from urwid import canvas as C
-        if spec["t"] == "solid":
-            return C.SolidCanvas(spec["ch"], spec["cols"], spec["rows"])
+    @staticmethod
+    def leaf_lists(spec, spec_enc):
+        """the three lists handed to TextCanvas for a text leaf: byte strings, attribute runs, charset runs
+        (attributes / charsets as integer ids)"""
         text, attr, cs = [], [], []
-        spec_enc = getattr(self, "_enc", "utf-8")
         mode = spec.get("mode", 0)
         for cells in spec["rows"]:
             bs = b""
@@ -246,20 +246,29 @@ class C02(core.Check):
             for n, (a, c, ch) in enumerate(cells):
                 b = ch.encode(spec_enc)
                 bs += b
-                for lst, val in ((al, attr_py(a)), (cl, CS[c])):
+                for lst, val in ((al, a), (cl, c)):
                     merge = lst and lst[-1][0] == val and (mode == 0 or (mode == 2 and n % 2 == 1))
                     if merge:
                         lst[-1] = (val, lst[-1][1] + len(b))
                     else:
                         lst.append((val, len(b)))
             if spec.get("short"):
-                while al and al[-1][0] is None:
+                while al and al[-1][0] == 0:
                     al.pop()
-                while cl and cl[-1][0] is None:
+                while cl and cl[-1][0] == 0:
                     cl.pop()
             text.append(bs)
             attr.append(al)
             cs.append(cl)
+        return text, attr, cs
+
+    def build_leaf(self, spec):
+        from urwid import canvas as C
+        if spec["t"] == "solid":
+            return C.SolidCanvas(spec["ch"], spec["cols"], spec["rows"])
+        text, attr, cs = self.leaf_lists(spec, getattr(self, "_enc", "utf-8"))
+        attr = [[(attr_py(a), n) for a, n in r] for r in attr]
+        cs = [[(CS[c], n) for c, n in r] for r in cs]
         cur = tuple(spec["cursor"]) if spec.get("cursor") is not None else None
         return C.TextCanvas(text, attr, cs, cursor=cur, maxcol=spec.get("maxcol"))
 
@@ -332,17 +341,38 @@ class C02(core.Check):
             self._enc = "utf-8"
             urwid.set_encoding("utf-8")
 
+    @staticmethod
+    def probes_of(case):
+        """probes [leaf, trim_left, trim_top, cols, rows, map|None] that address a text leaf"""
+        return [p for p in case.get("probes", [])
+                if 1 <= p[0] <= len(case["leaves"]) and case["leaves"][p[0] - 1]["t"] == "text"]
+
     def run_impl_enc(self, case):
         from urwid import canvas as C
-        res = {"obs": [], "deltas": [], "error": None, "changed": [], "alias": []}
+        res = {"obs": [], "deltas": [], "error": None, "changed": [], "alias": [], "probes": []}
         leaves = []
-        try:
-            for n, spec in enumerate(case["leaves"]):
+        for n, spec in enumerate(case["leaves"]):
+            try:
                 lf = self.build_leaf(spec)
                 lf._verif_id = n + 1
                 leaves.append(lf)
-        except Exception as e:
-            res["error"] = errcode(e)
+            except Exception as e:
+                leaves.append(e)
+                if res["error"] is None:
+                    res["error"] = errcode(e)
+        # TextCanvas.content(trim_left, trim_top, cols, rows, attr) of the leaves, raw: segment for segment, byte for byte
+        for i, tl_, tt_, c_, r_, m_ in self.probes_of(case):
+            lf = leaves[i - 1]
+            if isinstance(lf, Exception):
+                res["probes"].append({"err": errcode(lf)})
+                continue
+            try:
+                am = None if m_ is None else {attr_py(a): attr_py(b) for a, b in m_}
+                res["probes"].append([[[attr_id(a), CSR.get(cs, -1), list(bs)] for a, cs, bs in row]
+                                      for row in lf.content(tl_, tt_, c_, r_, am)])
+            except Exception as e:
+                res["probes"].append({"err": errcode(e)})
+        if res["error"] is not None:
             return res
         leaf_snap = [self.observe(l) for l in leaves]
         env, snaps, stack = [], [], []
@@ -444,7 +474,28 @@ class C02(core.Check):
 
     # ================================================================= model wire format
     def encode(self, case):
-        out = [len(case["leaves"])]
+        enc = case.get("enc", "utf-8")
+        out = [1 if enc == "utf-8" else 2]
+        tidx, bl = {}, []
+        for n, spec in enumerate(case["leaves"]):
+            if spec["t"] != "text":
+                continue
+            tidx[n + 1] = len(tidx)
+            text, attr, cs = self.leaf_lists(spec, enc)
+            b = [0] if spec.get("maxcol") is None else [1, spec["maxcol"]]
+            b.append(len(text))
+            for t, a, c in zip(text, attr, cs):
+                b += [len(t)] + list(t) + [len(a)] + [x for run in a for x in run] + [len(c)] + [x for run in c for x in run]
+            bl.append(b)
+        out.append(len(bl))
+        for b in bl:
+            out += b
+        pr = self.probes_of(case)
+        out.append(len(pr))
+        for i, tl_, tt_, c_, r_, m_ in pr:
+            out += [tidx[i], tl_, tt_, c_, r_]
+            out += [0] if m_ is None else [1, len(m_)] + [x for kv in m_ for x in kv]
+        out.append(len(case["leaves"]))
         for spec in case["leaves"]:
             if spec["t"] == "solid":
                 out += [2, spec["cs"], len(spec["ch"])] + [ord(c) for c in spec["ch"]] + [spec["cols"], spec["rows"]]
@@ -511,7 +562,7 @@ class C02(core.Check):
             t, v = nx(), nx()
             return [t, v]
 
-        res = {"obs": [], "deltas": [], "error": None, "changed": [], "alias": []}
+        res = {"obs": [], "deltas": [], "error": None, "changed": [], "alias": [], "probes": []}
         wf = []
         try:
             while True:
@@ -569,6 +620,11 @@ class C02(core.Check):
                             o = nx()
                             raw.append([o, [nx() for _ in range(nx())]])
                     res["alias"] = self.alias_pattern(raw)
+                elif tag == 5:
+                    if nx() == 0:
+                        res["probes"].append([[[nx(), nx(), [nx() for _ in range(nx())]] for _ in range(nx())] for _ in range(nx())])
+                    else:
+                        res["probes"].append({"err": nx()})
                 else:
                     return {"malformed": ints[:60]}
         except StopIteration:
@@ -855,6 +911,26 @@ class C02(core.Check):
                         msgs.append("def#%d: %s lost (expected one of %s)" % (n, name, vis))
             if o["popup"] is not None and o["popup"][2] not in [w for _, _, w, _ in v["pop"]]:
                 msgs.append("def#%d: pop-up data %s is not the one that was set" % (n, o["popup"][2]))
+        # a text leaf read through a window (what a cview does): the window of the leaf's grid, a double-width
+        # character cut at either edge replaced by a space, the attribute map applied cell by cell
+        enc = case.get("enc", "utf-8")
+        for (i, tl_, tt_, c_, r_, m_), got in zip(self.probes_of(case), res.get("probes", [])):
+            v = leaves[i - 1]
+            if v is None:
+                continue
+            W, H = len(v["g"][0]), len(v["g"])
+            cc, rr = c_ or W - tl_, r_ or H - tt_
+            if not (0 <= tl_ < W and cc > 0 and tl_ + cc <= W and 0 <= tt_ < H and rr > 0 and tt_ + rr <= H):
+                continue
+            if isinstance(got, dict):
+                msgs.append("leaf#%d.content(%d, %d, %d, %d): raised error code %s for a window inside the leaf" % (i, tl_, tt_, c_, r_, got["err"]))
+                continue
+            mm = {a: b for a, b in (m_ or [])}
+            exp = [[[c[0], mm.get(c[1], c[1]), c[2], c[3]] for c in self.g_cut(row[tl_:tl_ + cc])] for row in v["g"][tt_:tt_ + rr]]
+            gotc = [cells_of_row([(attr_py(a), CS.get(c, "?"), bytes(bs)) for a, c, bs in row], enc) for row in got]
+            if not self.cells_equal(gotc, exp):
+                msgs.append("leaf#%d.content(%d, %d, %d, %d): window of the text leaf differs from the window of its grid: got %s expected %s"
+                            % (i, tl_, tt_, c_, r_, self.show(gotc), self.show(exp)))
         # delta clause: the difference applied to the old rows reproduces the new content
         for (i, j), d in zip(case.get("deltas", []), res["deltas"]):
             if i >= len(res["obs"]) or j >= len(res["obs"]):
@@ -1136,12 +1212,43 @@ class C02(core.Check):
             t, w, h, _ = self.gen_tree(rng, depth, leaves, dims)
             defs.append(t)
             dims.append((w, h))
-        return self.with_enc({"leaves": leaves, "defs": defs, "deltas": []}, enc)
+        return self.with_enc({"leaves": leaves, "defs": defs, "deltas": []}, enc, rng)
 
     @staticmethod
-    def with_enc(case, enc):
+    def leaf_dims(sp):
+        w = sp["maxcol"] if sp.get("maxcol") is not None else max([sum(chw(ch[0]) for _, _, ch in r) for r in sp["rows"]] + [0])
+        return w, len(sp["rows"])
+
+    def gen_probes(self, rng, leaves, n):
+        """direct reads TextCanvas.content(trim_left, trim_top, cols, rows, attr) of text leaves: mostly windows
+        inside the leaf (0 = default for cols / rows), sometimes a window that sticks out"""
+        txt = [i + 1 for i, sp in enumerate(leaves) if sp["t"] == "text"]
+        out = []
+        for _ in range(n if txt else 0):
+            i = rng.choice(txt)
+            W, H = self.leaf_dims(leaves[i - 1])
+            W, H = max(W, 1), max(H, 1)
+            tl_ = rng.randrange(W)
+            c_ = rng.choice([0, W - tl_] + list(range(1, W - tl_ + 1)))
+            tt_ = rng.randrange(H)
+            r_ = rng.choice([0, H - tt_] + list(range(1, H - tt_ + 1)))
+            if rng.random() < 0.1:
+                k = rng.randrange(4)
+                tl_, tt_, c_, r_ = (tl_ + rng.choice([-1, W]) if k == 0 else tl_, tt_ + rng.choice([-1, H]) if k == 1 else tt_,
+                                    c_ + rng.choice([-W - 1, W]) if k == 2 else c_, r_ + rng.choice([-H - 1, H]) if k == 3 else r_)
+            m_ = None
+            if rng.random() < 0.5:
+                m_ = [[a, rng.choice([0, 1, 2, 3, 4, 8, 9])] for a in rng.sample([0, 1, 2, 3, 8, 9], rng.randint(0, 3))]
+            out.append([i, tl_, tt_, c_, r_, m_])
+        return out
+
+    def with_enc(self, case, enc, rng=None):
         if enc != "utf-8":
             case["enc"] = enc
+        if rng is not None:
+            pr = self.gen_probes(rng, case["leaves"], rng.choice([0, 1, 2, 3]))
+            if pr:
+                case["probes"] = pr
         return case
 
     def mangle(self, rng, t):
@@ -1349,12 +1456,21 @@ class C02(core.Check):
                 for left in range(0, JW - 3 + 1):
                     for top in range(0, JH):
                         yield mk(["overlay", ["wrap", ["leaf", 2]], jn, left, top])
+                for m_ in (None, [[1, 0], [3, 9], [0, 2]]):
+                    yield dict(mk(["wrap", ["leaf", 1]]), probes=self.all_windows(1, W, H, m_) + self.all_windows(2, 3, 1, m_))
+
+    @staticmethod
+    def all_windows(leaf, W, H, m_):
+        return [[leaf, a, b, c, d, m_] for a in range(W) for c in range(0, W - a + 1) for b in range(H) for d in range(0, H - b + 1)]
 
     def cases(self, rng, tier):
         for c in self.systematic():
             yield c
         for c in self.fill_systematic():
             yield c
+        for m_ in (None, [[1, 0], [3, 9], [0, 2]]):
+            yield {"leaves": [self.WLEAF, self.TLEAF], "defs": [["wrap", ["leaf", 1]]], "deltas": [],
+                   "probes": self.all_windows(1, 6, 2, m_) + self.all_windows(2, 3, 1, m_)}
         for c in self.db_systematic():
             yield c
         n = 6000 if tier == "quick" else 60000
